@@ -237,8 +237,19 @@ func (dec *ttlvReader) assertType(ty Type, tag int) error {
 	return nil
 }
 
+// assertLen checks that the current value is exactly n bytes long, as required for fixed-width types.
+func (dec *ttlvReader) assertLen(n int) error {
+	if l := dec.len(); l != n {
+		return Errorf("Invalid TTLV length for type %s. Got %d but expected %d", dec.Type(), l, n)
+	}
+	return nil
+}
+
 func (dec *ttlvReader) Integer(tag int) (int32, error) {
 	if err := dec.assertType(TypeInteger, tag); err != nil {
+		return 0, err
+	}
+	if err := dec.assertLen(4); err != nil {
 		return 0, err
 	}
 	//nolint:gosec // this cast is safe as we are parsing raw bytes.
@@ -248,6 +259,9 @@ func (dec *ttlvReader) Integer(tag int) (int32, error) {
 
 func (dec *ttlvReader) LongInteger(tag int) (int64, error) {
 	if err := dec.assertType(TypeLongInteger, tag); err != nil {
+		return 0, err
+	}
+	if err := dec.assertLen(8); err != nil {
 		return 0, err
 	}
 	//nolint:gosec // this cast is safe as we are parsing raw bytes.
@@ -264,12 +278,18 @@ func (dec *ttlvReader) Enum(realtag, tag int) (uint32, error) {
 	if err := dec.assertType(TypeEnumeration, tag); err != nil {
 		return 0, err
 	}
+	if err := dec.assertLen(4); err != nil {
+		return 0, err
+	}
 	v := binary.BigEndian.Uint32(dec.value())
 	return v, dec.Next()
 }
 
 func (dec *ttlvReader) Bool(tag int) (bool, error) {
 	if err := dec.assertType(TypeBoolean, tag); err != nil {
+		return false, err
+	}
+	if err := dec.assertLen(8); err != nil {
 		return false, err
 	}
 	v := dec.value()[7] != 0
@@ -308,6 +328,9 @@ func (dec *ttlvReader) DateTime(tag int) (time.Time, error) {
 	if err := dec.assertType(TypeDateTime, tag); err != nil {
 		return time.Time{}, err
 	}
+	if err := dec.assertLen(8); err != nil {
+		return time.Time{}, err
+	}
 	//nolint:gosec // this cast is safe as we are parsing raw bytes.
 	v := time.Unix(int64(binary.BigEndian.Uint64(dec.value())), 0)
 	return v, dec.Next()
@@ -315,6 +338,9 @@ func (dec *ttlvReader) DateTime(tag int) (time.Time, error) {
 
 func (dec *ttlvReader) Interval(tag int) (time.Duration, error) {
 	if err := dec.assertType(TypeInterval, tag); err != nil {
+		return 0, err
+	}
+	if err := dec.assertLen(4); err != nil {
 		return 0, err
 	}
 	v := time.Duration(binary.BigEndian.Uint32(dec.value())) * time.Second
